@@ -577,7 +577,7 @@ theorem normalVector_RD (o : Ori) : normalVector o ('R', 'D') true = .ok (o.row.
 theorem areCoplanar_false (P Q : Plane)
     (h : eqTol < 1 - rabs (P.nrm.dot Q.nrm) ∨ eqTol ≤ rabs (P.pos.dot P.nrm - Q.pos.dot P.nrm)) :
     areCoplanar P.pos P.o Q.pos Q.o = .ok false := by
-  simp only [areCoplanar, normalVector_RD, bind, Except.bind, pure, Except.pure]
+  simp only [areCoplanar, normalVector_RD, bind, Except.bind, pure, Except.pure, Gen.coplanarDistance]
   simp only [Plane.nrm] at h
   by_cases hc : 1 - rabs ((P.o.row.cross P.o.col).dot (Q.o.row.cross Q.o.col)) > eqTol
   · simp [hc]
@@ -589,7 +589,7 @@ theorem areCoplanar_false (P Q : Plane)
 theorem areCoplanar_true (P Q : Plane)
     (h1 : 1 - rabs (P.nrm.dot Q.nrm) ≤ eqTol) (h2 : rabs (P.pos.dot P.nrm - Q.pos.dot P.nrm) < eqTol) :
     areCoplanar P.pos P.o Q.pos Q.o = .ok true := by
-  simp only [areCoplanar, normalVector_RD, bind, Except.bind, pure, Except.pure]
+  simp only [areCoplanar, normalVector_RD, bind, Except.bind, pure, Except.pure, Gen.coplanarDistance]
   simp only [Plane.nrm] at h1 h2
   simp [not_lt.mpr h1, h2]
 
